@@ -15,9 +15,11 @@ VARIABLES kind,    \* scenario kind (static) or "dyn"
           first    \* the scenario's request
 mcvars == <<kind, first>>
 
-Pub(d)      == [present |-> TRUE, private |-> FALSE, allow |-> {}, delegates |-> d]
-Priv(a, d)  == [present |-> TRUE, private |-> TRUE, allow |-> a, delegates |-> d]
-Absent      == [present |-> FALSE, private |-> FALSE, allow |-> {}, delegates |-> {}]
+Pub(d)      == [present |-> TRUE, docok |-> TRUE, private |-> FALSE, allow |-> {}, delegates |-> d]
+Priv(a, d)  == [present |-> TRUE, docok |-> TRUE, private |-> TRUE, allow |-> a, delegates |-> d]
+Absent      == [present |-> FALSE, docok |-> FALSE, private |-> FALSE, allow |-> {}, delegates |-> {}]
+\* the repository is there but its current identity document cannot be loaded
+Unreadable(rs) == [rs EXCEPT !.docok = FALSE]
 
 \* ---- header product -------------------------------------------------------------------------
 CmdsQ == {<<"CMD", "SP">>, <<"CMDX", "SP">>, <<"CMD">>}
@@ -50,7 +52,8 @@ Headers == {[len |-> l, body |-> b] : l \in LensFull, b \in Bodies}
 World(def, pol, rp) == [def |-> def, pol |-> pol, repo |-> rp]
 WorldA == World("block", [r \in Rid |-> "allow"], [r \in Rid |-> Pub({"D"})])
 WorldB == World("block", [r \in Rid |-> "allow"], [r \in Rid |-> IF r = "R2" THEN Priv({}, {"D"}) ELSE Pub({"D"})])
-VisClasses == {Pub({"D"}), Priv({}, {"D"}), Priv({"A"}, {"D"}), Absent}
+VisClasses == {Pub({"D"}), Priv({}, {"D"}), Priv({"A"}, {"D"}), Absent,
+               Unreadable(Pub({"D"})), Unreadable(Priv({}, {"D"})), Unreadable(Priv({"A"}, {"D"}))}
 \* R1 ranges over every class; R2 is either servable to everyone or blocked, so that a responder
 \* that consulted the wrong repository's policy or document would be noticed.
 CellWorlds == {World(def, [r \in Rid |-> IF r = "R1" THEN p1 ELSE p2],
@@ -81,6 +84,7 @@ OpenM         == /\ IF Dynamic THEN \E n \in Node, h \in DynHeaders : Open(n, h)
 ReadHeaderM   == ReadHeader /\ UNCHANGED mcvars
 CheckPolicyM  == CheckPolicy /\ UNCHANGED mcvars
 LoadRepoM     == LoadRepo /\ UNCHANGED mcvars
+LoadDocM      == LoadDoc /\ UNCHANGED mcvars
 CheckVisibleM == CheckVisible /\ UNCHANGED mcvars
 StartUploadM  == StartUpload /\ UNCHANGED mcvars
 SendDataM     == SendData /\ UNCHANGED mcvars
@@ -89,8 +93,11 @@ CloseM        == Close /\ UNCHANGED mcvars
 SetPolicyM    == /\ \E r \in Rid, p \in Policy : SetPolicy(r, p)
                  /\ UNCHANGED mcvars
 
-MCNext == \/ OpenM \/ ReadHeaderM \/ CheckPolicyM \/ LoadRepoM \/ CheckVisibleM \/ StartUploadM
-          \/ SendDataM \/ FinishM \/ CloseM \/ SetPolicyM
+SetDocM       == /\ \E r \in Rid, b \in BOOLEAN : SetDoc(r, b)
+                 /\ UNCHANGED mcvars
+
+MCNext == \/ OpenM \/ ReadHeaderM \/ CheckPolicyM \/ LoadRepoM \/ LoadDocM \/ CheckVisibleM \/ StartUploadM
+          \/ SendDataM \/ FinishM \/ CloseM \/ SetPolicyM \/ SetDocM
 
 ASSUME ParserCompleteA == ParserComplete
 
@@ -103,6 +110,7 @@ Emit ==
                                  def |-> default,
                                  pol |-> [r \in Rid |-> policy[r]],
                                  present |-> [r \in Rid |-> repo[r].present],
+                                 docok |-> [r \in Rid |-> repo[r].docok],
                                  private |-> [r \in Rid |-> repo[r].private],
                                  allow |-> [r \in Rid |-> repo[r].allow],
                                  outs |-> outs,
